@@ -9,7 +9,8 @@ C17 driver.  One op per line:
      e/c/x ∈ {0,1}: --emit-duplicates / clear() at the start of checkInternal / exact file test for inline suppressions
      init   = "." | suppr(";"suppr)*                       (command-line suppressions)
      file   = early("|"event)*                             early ∈ {0,1}
-     event  = "S"suppr | "M"macromap | "R"remarks | "X"finding
+     event  = "S"suppr | "M"macromap | "R"remarks | "X"finding | "P"finding (isSuppressed only: the dummy call of check(file))
+              | "K"marks      marks = "." | hexfile@line("+"hexfile@line)*   (markUnmatchedInlineSuppressionsAsChecked)
      suppr  = hexid:hexfile:line:hexsymbol:type:lineBegin:lineEnd:tnl:hexmacro:inline     type ∈ u f b m
      macromap = "." | entry("+"entry)*   entry = hexfile@line@hexname(&hexname)*
      remarks  = "." | hexfile@line@hexstr("+"…)*
@@ -17,7 +18,8 @@ C17 driver.  One op per line:
 
   answer: per file "F=<tags>;R=<tags>;E=<exit>;I=<h1h2h3h4h5>" (forwarded / recorded / exit code / the five
   hypotheses of `Indep` for this file after its predecessors), then "SHOWN=<tags>" (what the outer logger prints,
-  key = the rendered text).  A forwarded tag carries "~hexremark" when a remark was attached.
+  key = the rendered text), then "UNM=<hexid@hexfile@line,…>" (`unmatchedInline` of the final state: the inline
+  suppressions `getUnmatchedInlineSuppressions` returns after the last file).  A forwarded tag carries "~hexremark" when a remark was attached.
 -/
 namespace Driver.C17
 
@@ -63,12 +65,21 @@ def pFinding (s : String) : Option Finding :=
     pure ⟨i, hl, f, l, sy, tx, inr, wp, tg, []⟩
   | _ => none
 
+def pMark (s : String) : Option (Str × Int) :=
+  match s.splitOn "@" with
+  | [f, l] => do
+    let f ← fromHex f; let l ← pInt l
+    pure (f, l)
+  | _ => none
+
 def pEvent (s : String) : Option (Ev Suppr) :=
   let body := (s.drop 1).toString
   if s.startsWith "S" then (pSuppr body).map Ev.suppr
   else if s.startsWith "M" then (pList "+" pMacroEntry body).map Ev.macros
   else if s.startsWith "R" then (pList "+" pRemark body).map Ev.remarks
   else if s.startsWith "X" then (pFinding body).map Ev.report
+  else if s.startsWith "P" then (pFinding body).map Ev.probe
+  else if s.startsWith "K" then (pList "+" pMark body).map Ev.mark
   else none
 
 def pFile (s : String) : Option (Trace Suppr) :=
@@ -107,7 +118,9 @@ def step (line : String) : String :=
       let bits := (List.range trs.length).zip trs |>.map (fun (k, tr) => bitsAt cfg init trs k tr)
       let per := (rs.zip bits).map (fun (r, b) => s!"F={tags r.forwarded};R={tags r.recorded};E={r.exit};I={b}")
       let sh := shown e (fun y => y.text) (stream rs [])
-      " ".intercalate per ++ " SHOWN=" ++ tags sh
+      let unm := unmatchedInline (stateAfter cfg id init trs)
+      " ".intercalate per ++ " SHOWN=" ++ tags sh ++ " UNM=" ++
+        ",".intercalate (unm.map (fun u => toHex u.errorId ++ "@" ++ toHex u.fileName ++ "@" ++ toString u.lineNumber))
     | _, _, _ => "bad-op"
   | _ => "bad-op"
 
